@@ -197,15 +197,17 @@ theorem payload {E : Ext} {cfg : Cfg} {e : RustEnum} {tag content : Str} {id : I
   rw [← h.1]
   exact ⟨t, st1, rfl, ht⟩
 
-/-- **alias**: `X = <translation of the type>` -/
+/-- **alias**: `X = <translation of the type>`; afterwards the generic parameters of the alias are
+registered as type variables (since the `fix:` commit 614135b) -/
 theorem alias {cfg : Cfg} {a : RustTypeAlias} {st st' : St} {pa : PyAlias}
     (h : aliasFacts cfg a st = .ok (pa, st')) :
-    formatType cfg a.genericTypes a.ty st = .ok (pa.ty, st') := by
+    ∃ st1, formatType cfg a.genericTypes a.ty st = .ok (pa.ty, st1) ∧
+      st' = a.genericTypes.foldl addTypeVar st1 := by
   unfold aliasFacts at h
   obtain ⟨⟨ty, st1⟩, hty, h⟩ := bind_ok h
   simp only [Outcome.ok.injEq, Prod.mk.injEq] at h
   obtain ⟨h1, h2⟩ := h
   subst h1 h2
-  exact hty
+  exact ⟨st1, hty, rfl⟩
 
 end TsV.C04.Py
